@@ -1,0 +1,30 @@
+//go:build verif
+
+package storage
+
+import (
+	"github.com/MixinNetwork/mixin/common"
+	"github.com/dgraph-io/badger/v4"
+)
+
+// VerifC34WriteOutputs is a verification hook (build tag verif) for the /verif
+// C34 harness: it stores a transaction and its outputs at a snapshot timestamp
+// with the store's own writeTransaction / writeUTXO in one database
+// transaction, i.e. what finalizing a snapshot does for that transaction (a
+// custodian update output goes through writeCustodianNodes), without the
+// round bookkeeping.  Nothing of the store is changed or bypassed.
+func (s *BadgerStore) VerifC34WriteOutputs(ver *common.VersionedTransaction, timestamp uint64, genesis bool) error {
+	return s.snapshotsDB.Update(func(txn *badger.Txn) error {
+		err := writeTransaction(txn, ver)
+		if err != nil {
+			return err
+		}
+		for _, utxo := range ver.UnspentOutputs() {
+			err = writeUTXO(txn, utxo, ver, timestamp, genesis)
+			if err != nil {
+				return err
+			}
+		}
+		return nil
+	})
+}
